@@ -26,12 +26,19 @@ Placements == {"samepkg",        \* source dir, source package name, non-test fi
               }
 GoMods == {"plain", "quoted", "tab", "comment", "block"}
 
+\* ovr: at which configuration LEVEL the template-data options are written.
+\*   none        all at package level (interfaces inherit)
+\*   flip-all    package level carries the NEGATED value of every boolean option; every interface overrides it
+\*   flip-first  package level as intended; the FIRST interface of the file overrides every option with the negation
+\*   flip-rest   package level as intended; every interface BUT the first overrides with the negation
+\* so that interfaces sharing one output file see different effective options, and options are never read from the wrong level.
+Overrides == {"none", "flip-all", "flip-first", "flip-rest"}
 Configs ==
   [tmpl : {"testify"}, unroll : {"unset", "false", "true"}, skipensure : {FALSE}, stub : {FALSE}, resets : {FALSE},
-   boilerplate : BOOLEAN, buildtags : BOOLEAN, fmt : Formatters, place : Placements, gomod : GoMods]
+   boilerplate : BOOLEAN, buildtags : BOOLEAN, fmt : Formatters, place : Placements, gomod : GoMods, ovr : Overrides]
   \cup
   [tmpl : {"matryer"}, unroll : {"unset"}, skipensure : BOOLEAN, stub : BOOLEAN, resets : BOOLEAN,
-   boilerplate : BOOLEAN, buildtags : BOOLEAN, fmt : Formatters, place : Placements, gomod : GoMods]
+   boilerplate : BOOLEAN, buildtags : BOOLEAN, fmt : Formatters, place : Placements, gomod : GoMods, ovr : Overrides]
 
 (* ---- contract ---- *)
 SameDir(pl) == pl \in {"samepkg", "samepkg_test", "ext_test"}
@@ -58,7 +65,30 @@ InPackageIffSameDirAndName == InPkgImpl(cfg) = InPackage(cfg.place)
 NoSelfImportWhenInPackage == InPackage(cfg.place) <=> SelfImportSkipped(cfg)
 ModuleReadFaithfully == ReadModule(cfg.gomod) = DeclaredModule(cfg.gomod)
 
+\* ---- template-data per level (contract: the most specific level wins, per key) ----
+OptKeys(c) == IF c.tmpl = "testify" THEN {"unroll-variadic"} ELSE {"skip-ensure", "stub-impl", "with-resets"}
+Intended(c, k) == CASE k = "unroll-variadic" -> c.unroll = "true" [] k = "skip-ensure" -> c.skipensure
+                    [] k = "stub-impl" -> c.stub [] k = "with-resets" -> c.resets
+Spell(b) == IF b THEN "true" ELSE "false"
+\* what is written at package level / at the interface level of the first interface / of the other interfaces
+PkgData(c) == [k \in OptKeys(c) |->
+                 IF c.ovr = "flip-all" THEN Spell(~Intended(c, k))
+                 ELSE IF k = "unroll-variadic" /\ c.ovr = "none" THEN c.unroll            \* unset / false / true as spelled
+                 ELSE IF Intended(c, k) THEN "true" ELSE "unset"]
+FirstData(c) == [k \in OptKeys(c) |-> CASE c.ovr = "flip-all" -> Spell(Intended(c, k)) [] c.ovr = "flip-first" -> Spell(~Intended(c, k))
+                                         [] OTHER -> "unset"]
+RestData(c)  == [k \in OptKeys(c) |-> CASE c.ovr = "flip-all" -> Spell(Intended(c, k)) [] c.ovr = "flip-rest" -> Spell(~Intended(c, k))
+                                         [] OTHER -> "unset"]
+Eff(pkg, own) == IF own # "unset" THEN own = "true" ELSE pkg = "true"
+EffOpt(c, which, k) == Eff(PkgData(c)[k], (IF which = "first" THEN FirstData(c) ELSE RestData(c))[k])
+Val(c, which, k) == IF k \in OptKeys(c) THEN EffOpt(c, which, k) ELSE FALSE
+PredKey(c, which) == [unroll |-> Val(c, which, "unroll-variadic"), skipensure |-> Val(c, which, "skip-ensure"), stub |-> Val(c, which, "stub-impl")]
+\* flip-all must leave every interface with the intended options
+OverridesWin == cfg.ovr \in {"none", "flip-all"} => \A k \in OptKeys(cfg) : EffOpt(cfg, "first", k) = Intended(cfg, k) /\ EffOpt(cfg, "rest", k) = Intended(cfg, k)
+
 Expect(c) == [inpkg |-> InPackage(c.place), dstpkg |-> DstPkg(c.place), samedir |-> SameDir(c.place),
-              predkey |-> [unroll |-> c.unroll = "true", skipensure |-> c.skipensure, stub |-> c.stub]]
+              pkgdata |-> PkgData(c), firstdata |-> FirstData(c), restdata |-> RestData(c),
+              predkey |-> PredKey(c, "first"), predkey_rest |-> PredKey(c, "rest"),
+              resets_first |-> Val(c, "first", "with-resets"), resets_rest |-> Val(c, "rest", "with-resets")]
 Emit == PrintT(<<"CFG", ToJson([cfg |-> cfg, expect |-> Expect(cfg)])>>)
 =============================================================================
